@@ -42,6 +42,7 @@ SEXP_API sexp_uint_t sexp_allocated_bytes (sexp ctx, sexp x);
 /* logging                                                            */
 
 static int verif_log_fd_ = -2;
+static long verif_log_bytes = 0, verif_log_max = 0;
 
 static int verif_log_fd (void) {
   const char *e;
@@ -62,6 +63,14 @@ void sexp_verif_logf (const char *fmt, ...) {
   va_end(ap);
   if (n < 0) return;
   if (n >= (int)sizeof(buf)) n = sizeof(buf) - 1;
+  /* a broken tree can make a monitor report without end: the log is cut at CHIBI_VERIF_LOGMAX bytes (default 128 MB) */
+  if (verif_log_max == 0) verif_log_max = getenv("CHIBI_VERIF_LOGMAX") ? atol(getenv("CHIBI_VERIF_LOGMAX")) : (128L << 20);
+  if (verif_log_bytes > verif_log_max) return;
+  verif_log_bytes += n;
+  if (verif_log_bytes > verif_log_max) {
+    if (write(fd, "\nLOG-TRUNCATED\n", 15) < 0) {}
+    return;
+  }
   if (write(fd, buf, n) < 0) {}
 }
 
